@@ -18,6 +18,7 @@ def analyse(ctx: CheckContext, p: Program):
     bk.check_assignment_booking(ctx, p, r)
     bk.check_zone_sum(ctx, p, r)
     bk.check_default_filter(ctx, p, r)
+    bk.check_zero_seeded_utilities(ctx, p, r)
     bk.check_name_match(ctx, p, r, _funcs(p, ("OpenPinch.analysis.utility_targeting", "OpenPinch.analysis.indirect_integration_entry")))
 
 
@@ -40,5 +41,7 @@ def run(ctx: CheckContext):
                 "cold_utilities[j].heat_flow + t.cold_utilities[j].heat_flow", "cold_utilities[j].heat_flow + t.hot_utilities[j].heat_flow", "ACC")
     run_control(ctx, "C03/inactive-utility-suppresses-default", analyse, p.root, "OpenPinch/analysis/data_preparation.py",
                 'utility.type in ["Cold", "Both"]\n            and utility.active\n', 'utility.type in ["Cold", "Both"]\n', "DEFAULT-FILTER")
+    run_control(ctx, "C03/utility-duty-preseeded", analyse, p.root, "OpenPinch/analysis/data_preparation.py",
+                "                dt_cont=selected.dt_cont,\n                htc=selected.htc,", "                dt_cont=selected.dt_cont,\n                heat_flow=get_value(selected.heat_flow),\n                htc=selected.htc,", "SEED")
     run_control(ctx, "C03/twin-explicit-sum", analyse, p.root, ind, "        cold_utility_target += t.cold_utility_target\n",
                 "        cold_utility_target = cold_utility_target + t.cold_utility_target\n", "ACC", expect_fire=False)
